@@ -38,7 +38,8 @@ pub fn poll_for_input(file: &OpenFile, timeout: Duration) -> std::io::Result<boo
         // For zero timeout, use current instant so first check sees zero remaining.
         Some(Instant::now())
     } else {
-        Some(Instant::now() + timeout)
+        // N.B. A deadline beyond what the clock can represent is no deadline.
+        Instant::now().checked_add(timeout)
     };
 
     poll_fd_for_input(fd, deadline)
